@@ -30,7 +30,7 @@ from .enums import (
 from .exceptions import ConsistencyError, GraphError
 from .file import REGULAR_OUTPUT_WHERE, File
 from .hash import FileHash, fmt_short_digest
-from .nglob import NamedGlob, glob_base_dir, has_any_wildcards
+from .nglob import NGLOB_REGEX_FLAGS, NamedGlob, glob_base_dir, has_any_wildcards
 from .path import dir_range_upper, parent_dir
 from .sqlite3 import prefix_clause
 from .static_tree import StaticTree
@@ -2232,7 +2232,9 @@ class Workflow(Trellis):
         sql = (
             "SELECT nglob.regex FROM nglob JOIN node ON node.i = nglob.node WHERE NOT node.detached"
         )
-        return any(re.compile(regex).fullmatch(path) for (regex,) in self.db.execute(sql))
+        return any(
+            re.compile(regex, NGLOB_REGEX_FLAGS).fullmatch(path) for (regex,) in self.db.execute(sql)
+        )
 
     def register_nglob(self, step: Step, ng: NamedGlob) -> None:
         """Register a glob pattern used by a step and validate its matches.
@@ -2361,7 +2363,7 @@ class Workflow(Trellis):
         )
         for glob_step_label, pattern, regex in self.db.execute(sql):
             for path in sorted(product_paths):
-                if re.compile(regex).fullmatch(path):
+                if re.compile(regex, NGLOB_REGEX_FLAGS).fullmatch(path):
                     raise GraphError(
                         _glob_product_message(pattern, glob_step_label, path, step_label)
                     )
